@@ -36,8 +36,34 @@ the repository takes part in a required value):
                      table) must give row i of the required values.
 
 All values are dyadic rationals with short mantissas, so every sum is exact in float64 whatever the order.
+
+END-TO-END PART (real result tables).  The same methods are also called on the Mappings objects that the REAL
+Spec.evaluate_mapping() (and, in thorough mode, Spec.map_workload_to_arch()) returns for the small example
+specs shipped with the tree under test (examples/arches/simple.yaml with examples/workloads/basic/matmuls.yaml /
+matvecs.yaml and the mappings of examples/mappings; tests/input_files/toll.arch.yaml for one mapper run), in variants
+that drive the scaling paths of the model: Workload.n_instances and Einsum.n_instances > 1, components with
+non-zero leak_power, 1-3 Einsums (fused and unfused), finite buffer throughput (different bottleneck components per
+Einsum), finite buffer size (non-zero reservations), other energy per action.  The ground truth is read off the
+RAW COLUMNS of the returned table by a parser written here (split on <SEP>; nothing of Mappings.access / _get_cols
+takes part): entries (Einsum, component, tensor | None for leak, action) for energy and action counts, (Einsum,
+component) for latency, (memory, level, side) for reservations.  Required, within 1e-9 relative:
+  * sum of ALL raw energy columns == Total<SEP>energy; sum of the raw leak columns == Total<SEP>leak_energy and
+    sum of the raw non-leak columns == Total<SEP>dynamic_energy (when the model reports them), and
+    Total<SEP>leak_energy + Total<SEP>dynamic_energy == Total<SEP>energy;
+  * energy() == Total<SEP>energy; for all 16 flag combinations energy(flags) == group-by sums of the raw entries,
+    key by key, and the values of every breakdown sum to Total<SEP>energy; the 'leak' entries and the other
+    entries of energy(per_action=True) add up to the two partial totals;
+  * actions(flags) == group-by sums of the raw action columns for all 8 combinations, and the sums of the values
+    agree across the combinations; every dynamic energy entry == the action count of the same (Einsum, component,
+    tensor, action) x the configured energy per action of that component (simple.yaml variants: the number is in
+    the variant), so that a scale factor applied to the energy entries but not to the action counts is seen;
+  * latency() == Total<SEP>latency == sum over Einsums of the max over the raw component latency columns; the
+    per-Einsum / per-component / both variants against their definitions;
+  * resource_usage() == max over the raw reservation columns per memory;
+  * shape (scalar / one-element list / list of n), repeated calls in seeded random order, table unchanged, and for
+    multi-row mapper results the real mappings[i] against row i.
 """
-import itertools, random
+import itertools, os, random
 from types import SimpleNamespace as NS
 
 SEP = "<SEP>"
@@ -490,10 +516,418 @@ def _sample_text(case):
         (", Total energy" if case["total_energy"] else "") + (", Total latency" if case["total_latency"] else "") + (", extra cols" if case["extras"] else "")
 
 
-def _sweep(seed, tier, n_random, known):
+# ------------------------------------------------------------------ end-to-end part: real result tables
+
+REL = 1e-9
+
+
+def _near(a, b):
+    a, b = float(a), float(b)
+    return a == b or abs(a - b) <= REL * max(abs(a), abs(b)) + 1e-300
+
+
+def _near_vec(a, b):
+    return len(a) == len(b) and all(_near(x, y) for x, y in zip(a, b))
+
+
+def _tree_root():
+    """Directory holding examples/ (and tests/input_files) of the tree under test: the parent of the imported
+    accelforge package; $VF_REPO and the working directory as fall-backs.  None if there is none."""
+    import accelforge
+
+    cands = [os.path.dirname(os.path.dirname(os.path.abspath(accelforge.__file__))), os.environ.get("VF_REPO") or "", os.getcwd()]
+    for c in cands:
+        if c and os.path.isfile(os.path.join(c, "examples", "arches", "simple.yaml")):
+            return c
+    return None
+
+
+_ONE_PROC = {"done": False}
+
+
+def _single_process():
+    """The harness budgets one core; accelforge otherwise starts one worker per CPU."""
+    if not _ONE_PROC["done"]:
+        for v in ("OMP_NUM_THREADS", "OPENBLAS_NUM_THREADS", "MKL_NUM_THREADS", "NUMEXPR_NUM_THREADS"):
+            os.environ.setdefault(v, "1")
+        from accelforge.util.parallel import set_n_parallel_jobs
+
+        set_n_parallel_jobs(1)
+        _ONE_PROC["done"] = True
+
+
+REAL_BASES = [
+    # (workload file, mapping file, N_EINSUMS or None)
+    ("matmuls.yaml", "unfused_matmuls_to_simple.yaml", 1),
+    ("matmuls.yaml", "unfused_matmuls_to_simple.yaml", 2),
+    ("matmuls.yaml", "fused_matmuls_to_simple.yaml", 2),
+    ("matmuls.yaml", "fused_matmuls_to_simple.yaml", 3),
+    ("matvecs.yaml", "fused_matvecs_to_simple_tiled.yaml", None),
+    ("matvecs.yaml", "fused_matvecs_to_simple_tiled_reuse_A.yaml", None),
+    ("matvecs.yaml", "fused_matvecs_to_simple_untiled.yaml", None),
+    ("matvecs.yaml", "unfused_matvecs_to_simple.yaml", None),
+    # thorough only
+    ("matmuls.yaml", "unfused_matmuls_to_simple.yaml", 3),
+    # (fused_matmuls_to_simple.yaml with N_EINSUMS=1 stores T0 / T1 twice in GlobalBuffer and is not a valid mapping)
+]
+
+
+def _base_einsums(base):
+    return [f"Matmul{i}" for i in range(base[2])] if base[2] is not None else ["Y", "Z"]
+
+
+def _real_variant(base, wn, en, leak, k, m=8, kn=4, thr=None, mme=None, size=None):
+    """A json-able description of one real spec.  en: Einsum -> n_instances; leak: component -> leak_power;
+    thr / mme / size: GlobalBufferThroughput / MainMemoryEnergy / GlobalBufferSize of simple.yaml (None: its default)."""
+    jd = {}
+    if base[2] is not None:
+        jd.update({"N_EINSUMS": base[2], "M": m, "KN": kn})
+    if thr is not None:
+        jd["GlobalBufferThroughput"] = thr
+    if mme is not None:
+        jd["MainMemoryEnergy"] = mme
+    if size is not None:
+        jd["GlobalBufferSize"] = size
+    return {"real": "evaluate_mapping", "arch": "simple.yaml", "workload": base[0], "mapping": base[1], "jinja": jd, "workload_n_instances": wn,
+            "einsum_n_instances": dict(en), "leak_power": dict(leak), "order": k}
+
+
+def _real_core(tier):
+    """Every base spec x Workload.n_instances {1, 3} x Einsum.n_instances {all 1, last Einsum 2 (quick) / also first Einsum 5}
+    x leak {none, GlobalBuffer 0.5 + MAC 2}; throughput / energy per action / buffer size rotate."""
+    bases = REAL_BASES[:8] if tier == "quick" else REAL_BASES
+    k = 0
+    for base in bases:
+        es = _base_einsums(base)
+        ens = [{}, {es[-1]: 2}] + ([] if tier == "quick" else [{es[0]: 5}, {e: 2 + i for i, e in enumerate(es)}])
+        for wn in (1, 3):
+            for en in ens:
+                for leak in ({}, {"GlobalBuffer": 0.5, "MAC": 2}):
+                    k += 1
+                    yield _real_variant(base, wn, en, leak, k, thr=[None, 2, 8][k % 3], mme=[None, 3][(k // 2) % 2], size=[None, 1 << 20][(k // 3) % 2])
+
+
+def _real_random(rnd, tier, k):
+    base = rnd.choice(REAL_BASES)
+    es = _base_einsums(base)
+    en = {e: rnd.choice([2, 3, 5]) for e in es if rnd.random() < 0.5}
+    leak = {c: rnd.choice([0.25, 0.5, 2, 3]) for c in ("MainMemory", "GlobalBuffer", "MAC") if rnd.random() < 0.5}
+    return _real_variant(base, rnd.choice([1, 2, 3, 7]), en, leak, 1000 + k, m=rnd.choice([2, 4, 8, 16] if tier != "quick" else [2, 4, 8]), kn=rnd.choice([2, 4, 8] if tier != "quick" else [2, 4]),
+                         thr=rnd.choice([None, 1, 2, 8, 64]), mme=rnd.choice([None, 2, 3, 0.5]), size=rnd.choice([None, 1 << 20, 1 << 16]))
+
+
+def _real_spec(v, root):
+    from accelforge.frontend.spec import Spec
+
+    ex = os.path.join(root, "examples")
+    spec = Spec.from_yaml(os.path.join(ex, "arches", v["arch"]), os.path.join(ex, "workloads", "basic", v["workload"]),
+                          *([os.path.join(ex, "mappings", v["mapping"])] if v.get("mapping") else []), jinja_parse_data=dict(v["jinja"]))
+    spec.workload.n_instances = v["workload_n_instances"]
+    for e, n in v["einsum_n_instances"].items():
+        spec.workload.einsums[e].n_instances = n
+    for c, lp in v["leak_power"].items():
+        spec.arch[c].leak_power = lp
+    return spec
+
+
+def _simple_unit_energy(v):
+    mme = v["jinja"].get("MainMemoryEnergy", 1)
+    return {("MainMemory", "read"): mme, ("MainMemory", "write"): mme, ("GlobalBuffer", "read"): 1, ("GlobalBuffer", "write"): 1, ("MAC", "compute"): 1}
+
+
+def _raw_entries(df):
+    """Ground truth of a real table: parsed from the raw column names, values as floats (one per row)."""
+    out = {"energy": [], "actions": [], "latency": [], "reservations": [], "totals": {}, "unexpected": []}
+    for col in df.columns:
+        parts = str(col).split(SEP)
+        if parts[0] == "Total":
+            if len(parts) == 2 and parts[1] in ("energy", "latency", "leak_energy", "dynamic_energy"):
+                out["totals"][parts[1]] = [float(x) for x in df[col]]
+            continue
+        if parts[0] == "reservation":
+            if len(parts) == 4:
+                out["reservations"].append([parts[1], parts[2], parts[3], [float(x) for x in df[col]]])
+            else:
+                out["unexpected"].append(col)
+            continue
+        if len(parts) < 2 or parts[1] not in ("energy", "action", "latency"):
+            continue
+        vals = [float(x) for x in df[col]]
+        if parts[1] == "energy" and len(parts) == 5:
+            out["energy"].append(((parts[0], parts[2], parts[3], parts[4]), vals))
+        elif parts[1] == "energy" and len(parts) == 4 and parts[3] == "leak":
+            out["energy"].append(((parts[0], parts[2], None, "leak"), vals))
+        elif parts[1] == "action" and len(parts) == 5:
+            out["actions"].append(((parts[0], parts[2], parts[3], parts[4]), vals))
+        elif parts[1] == "latency" and len(parts) == 3:
+            out["latency"].append(((parts[0], parts[2]), vals))
+        else:
+            out["unexpected"].append(col)
+    return out
+
+
+def _sum_vecs(vecs, n):
+    tot = [0.0] * n
+    for v in vecs:
+        tot = [a + b for a, b in zip(tot, v)]
+    return tot
+
+
+def _real_required(raw, einsum_order, n):
+    """what -> flags -> required value (list per row, or dict of lists), from the raw entries only."""
+    req = {"energy": {}, "actions": {}, "latency": {}}
+    for fl in E_FLAGS:
+        keep = [i for i, f in enumerate(fl) if f]
+        req["energy"][fl] = _group(raw["energy"], keep, n) if keep else _sum_vecs([v for _, v in raw["energy"]], n)
+    for fl in A_FLAGS:
+        keep = [i for i, f in enumerate(tuple(fl) + (True,)) if f]
+        req["actions"][fl] = _group(raw["actions"], keep, n)
+    per = {}
+    for (e, c), v in raw["latency"]:
+        per.setdefault(e, []).append(v)
+    mx = {e: [max(v[r] for v in vs) for r in range(n)] for e, vs in per.items()}
+    req["latency"][(True, True)] = {k: list(v) for k, v in raw["latency"]}
+    req["latency"][(False, True)] = _group([((c,), v) for (e, c), v in raw["latency"]], [0], n)
+    req["latency"][(True, False)] = mx
+    req["latency"][(False, False)] = _sum_vecs(mx.values(), n)
+    res = {}
+    for mem, _, _, vals in raw["reservations"]:
+        res[mem] = list(vals) if mem not in res else [max(a, b) for a, b in zip(res[mem], vals)]
+    req["resource_usage"] = {(): res}
+    return req
+
+
+def _same_vec_tol(got, want_rows, n_table, lio):
+    if n_table == 1 and not lio:
+        if isinstance(got, (list, tuple, dict)) or hasattr(got, "iloc") or getattr(got, "ndim", 0):
+            return False
+        g = _num(got)
+        return g is not None and _near(g, want_rows[0])
+    if not isinstance(got, list) or len(got) != len(want_rows):
+        return False
+    return all(_num(g) is not None and _near(_num(g), w) for g, w in zip(got, want_rows))
+
+
+def _same_tol(got, want, rows, n_table, lio):
+    if isinstance(want, dict):
+        if not isinstance(got, dict) or set(got.keys()) != set(want.keys()):
+            return False
+        return all(_same_vec_tol(got[k], [want[k][r] for r in rows], n_table, lio) for k in want)
+    if isinstance(got, dict):
+        return False
+    return _same_vec_tol(got, [want[r] for r in rows], n_table, lio)
+
+
+def _numeric_snapshot(df):
+    return {str(c): [float(x) for x in df[c]] for c in df.columns if "mapping" not in str(c).split(SEP)}
+
+
+def _check_real_object(m, req, rows, totals, rnd, counters, both_lio, reduced=False):
+    """All calls on one real Mappings object holding the rows `rows` of the table the requirement was read from."""
+    n_table = len(rows)
+    calls = [("energy", fl) for fl in E_FLAGS] + [("actions", fl) for fl in A_FLAGS] + [("latency", fl) for fl in L_FLAGS] + [("resource_usage", ())]
+    if reduced:
+        calls = rnd.sample(calls, 8) + [("energy", (False,) * 4), ("latency", (False, False))]
+    else:
+        calls = calls + rnd.sample(calls, 4)
+    rnd.shuffle(calls)
+    sums = {"energy": [], "actions": []}
+    for k, (what, fl) in enumerate(calls):
+        lios = (False, True) if both_lio else ((k + rows[0]) % 2 == 0,)
+        for lio in lios:
+            try:
+                if what == "energy":
+                    got = m.energy(per_einsum=fl[0], per_component=fl[1], per_tensor=fl[2], per_action=fl[3], list_if_one_mapping=lio)
+                elif what == "actions":
+                    got = m.actions(per_einsum=fl[0], per_component=fl[1], per_tensor=fl[2], list_if_one_mapping=lio)
+                elif what == "latency":
+                    got = m.latency(per_einsum=fl[0], per_component=fl[1], list_if_one_mapping=lio)
+                else:
+                    got = m.resource_usage(list_if_one_mapping=lio)
+            except Exception as ex:
+                raise _Fail(f"{what}{fl} list_if_one_mapping={lio} rows={rows}", f"{type(ex).__name__}: {str(ex)[:300]}", "a value")
+            counters["evaluations"] += 1
+            want = req[what][fl]
+            if not _same_tol(got, want, rows, n_table, lio):
+                raise _Fail(f"{what}{fl} list_if_one_mapping={lio} rows={rows} vs group-by of the raw columns", _show(got), _pick(want, rows))
+            if what in sums:
+                s = _row_sums(got, n_table, lio)
+                if s is None:
+                    raise _Fail(f"{what}{fl} row sums", "values of differing lengths", "one value per row")
+                sums[what].append((fl, s))
+    # literal form of the statement
+    if "energy" in totals:
+        te = [totals["energy"][r] for r in rows]
+        for fl, s in sums["energy"]:
+            if not _near_vec(s, te):
+                raise _Fail(f"sum of the values of energy{fl} vs Total<SEP>energy (rows {rows})", s, te)
+    for fl, s in sums["actions"]:
+        if not _near_vec(s, sums["actions"][0][1]):
+            raise _Fail(f"sum of the values of actions{fl} vs actions{sums['actions'][0][0]} (rows {rows})", s, sums["actions"][0][1])
+    if "latency" in totals:
+        got = m.latency(list_if_one_mapping=True)
+        counters["evaluations"] += 1
+        tl = [totals["latency"][r] for r in rows]
+        if not isinstance(got, list) or not _near_vec([float(x) for x in got], tl):
+            raise _Fail(f"latency() vs Total<SEP>latency (rows {rows})", _show(got), tl)
+    # leak + dynamic through the real breakdown
+    got = m.energy(per_action=True, list_if_one_mapping=True)
+    counters["evaluations"] += 1
+    leak = [float(x) for x in got.get("leak", [0.0] * n_table)]
+    dyn = _sum_vecs([[float(x) for x in v] for a, v in got.items() if a != "leak"], n_table)
+    for name, vec in (("leak_energy", leak), ("dynamic_energy", dyn)):
+        if name in totals and not _near_vec(vec, [totals[name][r] for r in rows]):
+            raise _Fail(f"{'leak' if name == 'leak_energy' else 'non-leak'} entries of energy(per_action=True) vs Total<SEP>{name} (rows {rows})", vec, [totals[name][r] for r in rows])
+    if "energy" in totals and not _near_vec([a + b for a, b in zip(leak, dyn)], [totals["energy"][r] for r in rows]):
+        raise _Fail(f"leak + non-leak entries of energy(per_action=True) vs Total<SEP>energy (rows {rows})", [a + b for a, b in zip(leak, dyn)], [totals["energy"][r] for r in rows])
+
+
+def _check_real_table(m, desc, rnd, counters, unit_energy=None, both_lio=False, n_sub=0):
+    """None if the real Mappings object `m` passes, else a failure dict."""
+    try:
+        df = m.data
+        n = len(df)
+        if n == 0:
+            raise _Fail("result table", "no row", "at least one mapping")
+        raw = _raw_entries(df)
+        tot = raw["totals"]
+        if raw["unexpected"]:
+            raise _Fail("column convention of the real table", [str(c) for c in raw["unexpected"]][:5], "energy / action / latency / reservation columns of the documented form")
+        if not raw["energy"] or not raw["latency"] or "energy" not in tot:
+            raise _Fail("real table", f"{len(raw['energy'])} energy, {len(raw['latency'])} latency columns, totals {sorted(tot)}", "detailed energy and latency columns and Total<SEP>energy")
+        # the statement itself first: energy() / latency() against the reported totals
+        for name, call in (("energy", m.energy), ("latency", m.latency)):
+            if name in tot:
+                try:
+                    got = call(list_if_one_mapping=True)
+                except Exception as ex:
+                    raise _Fail(f"{name}(list_if_one_mapping=True)", f"{type(ex).__name__}: {str(ex)[:300]}", "a value")
+                counters["evaluations"] += 1
+                if not isinstance(got, list) or not _near_vec([float(x) for x in got], tot[name]):
+                    raise _Fail(f"{name}() vs Total<SEP>{name}", _show(got), tot[name])
+        # raw columns against the totals (no method of Mappings involved)
+        all_e = _sum_vecs([v for _, v in raw["energy"]], n)
+        leak_e = _sum_vecs([v for k, v in raw["energy"] if k[3] == "leak"], n)
+        dyn_e = _sum_vecs([v for k, v in raw["energy"] if k[3] != "leak"], n)
+        if not _near_vec(all_e, tot["energy"]):
+            raise _Fail("sum of all <Einsum><SEP>energy<SEP>... columns vs Total<SEP>energy", all_e, tot["energy"])
+        if "leak_energy" in tot and not _near_vec(leak_e, tot["leak_energy"]):
+            raise _Fail("sum of the <Einsum><SEP>energy<SEP><component><SEP>leak columns vs Total<SEP>leak_energy", leak_e, tot["leak_energy"])
+        if "dynamic_energy" in tot and not _near_vec(dyn_e, tot["dynamic_energy"]):
+            raise _Fail("sum of the non-leak energy columns vs Total<SEP>dynamic_energy", dyn_e, tot["dynamic_energy"])
+        if "leak_energy" in tot and "dynamic_energy" in tot and not _near_vec([a + b for a, b in zip(tot["leak_energy"], tot["dynamic_energy"])], tot["energy"]):
+            raise _Fail("Total<SEP>leak_energy + Total<SEP>dynamic_energy vs Total<SEP>energy", [a + b for a, b in zip(tot["leak_energy"], tot["dynamic_energy"])], tot["energy"])
+        if unit_energy is not None:
+            acts = {k: v for k, v in raw["actions"]}
+            for k, v in raw["energy"]:
+                if k[3] == "leak":
+                    continue
+                u = unit_energy.get((k[1], k[3]))
+                if u is None or k not in acts:
+                    raise _Fail(f"energy column of {k}", "no action-count column / unknown action", "an action count for every dynamic energy entry")
+                want = [a * u for a in acts[k]]
+                if not _near_vec(v, want):
+                    raise _Fail(f"energy entry {k} vs action count x energy per action ({u})", v, want)
+            for k, v in raw["actions"]:  # an action count without an energy entry must be zero or cost nothing
+                if not any(k == k2 for k2, _ in raw["energy"]) and unit_energy.get((k[1], k[3]), 0) != 0 and any(x != 0 for x in v):
+                    raise _Fail(f"action count {k} without energy entry", v, "an energy column, or a zero count")
+        counters["real_leak_nonzero"] += 1 if any(x != 0 for x in leak_e) else 0
+        counters["real_reservation_nonzero"] += 1 if any(x != 0 for r in raw["reservations"] for x in r[3]) else 0
+        req = _real_required(raw, list(m.einsum_names), n)
+        snap = _numeric_snapshot(df)
+        _check_real_object(m, req, list(range(n)), tot, rnd, counters, both_lio)
+        if _numeric_snapshot(m.data) != snap or [str(c) for c in m.data.columns] != [str(c) for c in df.columns]:
+            raise _Fail("table of the real object after the calls", "changed", "unchanged")
+        if n > 1:
+            for i in rnd.sample(range(n), min(n, n_sub)):
+                _check_real_object(m[i], req, [i], tot, rnd, counters, both_lio, reduced=True)
+            if _numeric_snapshot(m.data) != snap:
+                raise _Fail("table of the real object after mappings[i] calls", "changed", "unchanged")
+    except _Fail as f:
+        return {"failed": True, "input": desc, "call": f.call, "observed": f.observed, "required": f.required, "class": None}
+    return None
+
+
+def _real_mapper_variants(root):
+    out = [{"real": "map_workload_to_arch", "arch": "simple.yaml", "workload": "matmuls.yaml", "mapping": None,
+            "jinja": {"N_EINSUMS": 2, "M": 4, "KN": 4, "GlobalBufferSize": 512, "GlobalBufferThroughput": 8, "MainMemoryEnergy": 5},
+            "workload_n_instances": 2, "einsum_n_instances": {"Matmul1": 3}, "leak_power": {"GlobalBuffer": 0.5}, "metrics": "ENERGY|LATENCY", "order": 2001}]
+    if os.path.isfile(os.path.join(root, "tests", "input_files", "toll.arch.yaml")):
+        out.append({"real": "map_workload_to_arch", "arch": "tests/input_files/toll.arch.yaml", "workload": "tests/input_files/matmul_toll.workload.yaml", "mapping": None, "jinja": {},
+                    "workload_n_instances": 2, "einsum_n_instances": {"Matmul1": 3}, "leak_power": {"Toll": 0.25}, "metrics": "ENERGY", "order": 2002})
+    return out
+
+
+def _run_real_mapper(v, root):
+    from accelforge.frontend.spec import Spec
+    from accelforge.frontend.mapper.metrics import Metrics
+
+    if v["arch"] == "simple.yaml":
+        spec = _real_spec(v, root)
+    else:
+        spec = Spec.from_yaml(os.path.join(root, v["arch"]), os.path.join(root, v["workload"]))
+        spec.workload.n_instances = v["workload_n_instances"]
+        for e, n in v["einsum_n_instances"].items():
+            spec.workload.einsums[e].n_instances = n
+        for c, lp in v["leak_power"].items():
+            spec.arch[c].leak_power = lp
+    mt = Metrics.ENERGY
+    if "LATENCY" in v["metrics"]:
+        mt = mt | Metrics.LATENCY
+    spec.mapper.metrics = mt
+    return spec.map_workload_to_arch(print_progress=False)
+
+
+def _real_sweep(seed, tier, n_random, counters, samples):
+    """-> (failure dict or None, description of what was run)"""
+    _single_process()
+    root = _tree_root()
+    if root is None:
+        return None, "end-to-end part SKIPPED: no examples/arches/simple.yaml next to the accelforge package under test"
+    rnd = random.Random(int(seed) * 7919 + (3 if tier == "quick" else 5))
+    variants = list(_real_core(tier)) + [_real_random(rnd, tier, k) for k in range(n_random)]
+    n_eval = 0
+    for v in variants:
+        try:
+            m = _real_spec(v, root).evaluate_mapping()
+        except Exception as ex:
+            return {"failed": True, "input": v, "call": "Spec.evaluate_mapping()", "observed": f"{type(ex).__name__}: {str(ex)[:300]}", "required": "a result for a shipped example mapping",
+                    "class": None}, ""
+        n_eval += 1
+        counters["evaluations"] += 1
+        counters["real_tables"] += 1
+        res = _check_real_table(m, v, random.Random(v["order"] * 131 + int(seed)), counters, unit_energy=_simple_unit_energy(v), both_lio=(tier != "quick"))
+        if res is not None:
+            return res, ""
+        if len(samples) < 8 and n_eval % 23 == 1:
+            samples.append(f"real: {v['mapping']} {v['jinja']} workload x{v['workload_n_instances']} einsums x{v['einsum_n_instances']} leak {v['leak_power']}")
+    n_map = n_rows = 0
+    if tier != "quick":
+        for v in _real_mapper_variants(root):
+            try:
+                m = _run_real_mapper(v, root)
+            except Exception as ex:
+                return {"failed": True, "input": v, "call": "Spec.map_workload_to_arch()", "observed": f"{type(ex).__name__}: {str(ex)[:300]}", "required": "mappings", "class": None}, ""
+            n_map += 1
+            n_rows += len(m.data)
+            counters["evaluations"] += 1
+            counters["real_tables"] += 1
+            res = _check_real_table(m, v, random.Random(v["order"] + int(seed)), counters, unit_energy=_simple_unit_energy(v) if v["arch"] == "simple.yaml" else None, both_lio=True, n_sub=4)
+            if res is not None:
+                return res, ""
+            samples.append(f"real: mapper on {v['arch']} {v['jinja']} -> {len(m.data)} mappings")
+    text = (f"End-to-end part: {n_eval} real tables from Spec.evaluate_mapping() on examples/arches/simple.yaml x (matmuls N=1..3 fused / unfused, matvecs x 4 mappings) with "
+            f"Workload.n_instances in 1..7, Einsum.n_instances in 1..5, leak_power 0..3 per component, GlobalBufferThroughput inf/1..64, MainMemoryEnergy 0.5..3, GlobalBufferSize inf/2^16/2^20 "
+            f"({counters['real_leak_nonzero']} tables with non-zero leak energy, {counters['real_reservation_nonzero']} with non-zero reservations)"
+            + (f", {n_map} Spec.map_workload_to_arch() runs returning {n_rows} mappings (mappings[i] checked for up to 4 rows each)" if n_map else "")
+            + "; ground truth parsed from the raw column names of the returned table; every comparison within 1e-9 relative.")
+    return None, text
+
+
+def _sweep(seed, tier, n_random, known, n_real):
     known_ids = frozenset(e.get("class_id") for e in (known or []) if e.get("status", "open") == "open")
     rnd = random.Random(int(seed) * 104729 + (0 if tier == "quick" else 1))
-    counters = {"evaluations": 0, "known_finding_hits": 0}
+    counters = {"evaluations": 0, "known_finding_hits": 0, "real_tables": 0, "real_leak_nonzero": 0, "real_reservation_nonzero": 0, "real_text": ""}
     seen, samples, n_core = set(), [], 0
     for case in _core_cases(tier):
         n_core += 1
@@ -501,15 +935,19 @@ def _sweep(seed, tier, n_random, known):
         res = _check(case, known_ids, counters)
         if res is not None:
             return res, counters, len(seen), samples, n_core
+    # end-to-end part on real result tables (no input class of it is a recorded finding)
+    res, counters["real_text"] = _real_sweep(seed, tier, n_real, counters, samples)
+    if res is not None:
+        return res, counters, len(seen) + counters["real_tables"], samples, n_core
     for i in range(n_random):
         case = _rand_case(rnd, big=(tier != "quick"))
         seen.add(repr(case))
         res = _check(case, known_ids, counters)
         if res is not None:
             return res, counters, len(seen), samples, n_core
-        if len(samples) < 6 and i % 7 == 0:
+        if len(samples) < 8 and i % 11 == 0:
             samples.append(_sample_text(case))
-    return None, counters, len(seen), samples, n_core
+    return None, counters, len(seen) + counters["real_tables"], samples, n_core
 
 
 def bounded(p):
@@ -517,7 +955,8 @@ def bounded(p):
     if tier not in ("quick", "thorough"):
         tier = "quick"
     n_random = int(p.get("_n_random", 80 if tier == "quick" else 1500))
-    res, counters, distinct, samples, n_core = _sweep(p.get("seed", 0), tier, n_random, p.get("known"))
+    n_real = int(p.get("_n_real", 12 if tier == "quick" else 150))
+    res, counters, distinct, samples, n_core = _sweep(p.get("seed", 0), tier, n_random, p.get("known"), n_real)
     if res is not None:
         res.update({"evaluations": counters["evaluations"], "known_finding_hits": counters["known_finding_hits"]})
         return res
@@ -534,7 +973,7 @@ def bounded(p):
         "and latency() the Total<SEP>latency column when present, a one-row table must give scalars (one-element lists with list_if_one_mapping), a table "
         "with n rows lists of length n, the DataFrame must be unchanged after the calls, and for multi-row tables the real mappings[i] (object dtype one-row "
         "table) must give row i of the required values. "
-        f"This run: {n_core} exhaustive-core tables + {n_random} seeded random tables. "
+        f"This run: {n_core} exhaustive-core tables + {n_random} seeded random tables. " + counters["real_text"] + " "
         "Outside the family: tables with no energy or no latency breakdown column at all (e.g. results of the mapper with eval_in_detail=False: energy() "
         "returns 0 there while Total<SEP>energy is not 0), negative reservations, columns whose tensor is not a tensor of the Einsum."
     )
@@ -545,7 +984,10 @@ def bounded(p):
                  "Einsums) plus the 'None' tensor and leak entries, actions read/write/compute/transfer/leak, 1-4 rows, index default / all-duplicate / shuffled, "
                  "int64 and float64 columns, shuffled column order, 0-3 reservation columns per memory; values dyadic rationals <= 2^20; exhaustive core: every "
                  "non-empty subset of 5 entries {Mem/A/read, Mem/A/write, Buf/A/read, MAC/None/compute, Mem/leak} for one Einsum with 1 and 2 rows"
-                 + ("; every pair of non-empty subsets of the first 4 entries over two Einsums sharing the tensor" if tier == "thorough" else ""),
+                 + ("; every pair of non-empty subsets of the first 4 entries over two Einsums sharing the tensor" if tier == "thorough" else "")
+                 + "; end-to-end: real tables of Spec.evaluate_mapping() for the shipped simple.yaml examples (1-3 Einsums, 3 components, <= 16x8x8 matmuls) over the grid "
+                   "Workload.n_instances {1,3} x Einsum.n_instances {1, last 2" + ("" if tier == "quick" else ", first 5, all different") + "} x leak {none, GlobalBuffer 0.5 + MAC 2} for every base spec plus "
+                 + f"{n_real} seeded random variants" + ("" if tier == "quick" else "; two Spec.map_workload_to_arch() runs (multi-row tables)"),
         "rule": rule, "exhaustive": True, "samples": samples,
     }
 
